@@ -18,7 +18,7 @@
 From Coq Require Import List String ZArith Bool.
 From Coq.Strings Require Import Byte.
 Import ListNotations.
-Open Scope string_scope.
+Local Open Scope string_scope.
 
 Inductive gop := OEq | ONe | OLt | OLe | OGt | OGe | OAnd | OOr
                | OAdd | OSub | OMul | ODiv | OMod | OBand | OBor | OXor | OShl | OShr | OAndNot.
